@@ -1,12 +1,14 @@
 """Shared executor harness (C01 C02 C03 C05 C08 C09): builds real openhtf trees from JSON cases, runs
 htf.Test(...).execute() in-process, canonicalises the TestRecord and the call log (DESIGN section 4)."""
 import logging
+import os
 import threading
 import time
 
 _SETUP = False
 CRASHES = []
 TIMEOUT_S = 0.25
+LINGER = {}
 HANG_S = 30.0
 STUCK_S = 4.0        # how long an unkillable tearDown stays stuck
 STUCK_HANG_S = 2.0   # execute() not back by then although the tearDown timeout is 0.05 s: reported as O:HANG
@@ -29,6 +31,16 @@ def setup():
   console_output.error_print = lambda *a, **k: None
   console_output.cli_print = lambda *a, **k: None
   threading.excepthook = lambda a: CRASHES.append(a.exc_type.__name__)
+  # phases named in LINGER: the body returns at once, the designated override point "called once _thread_proc has
+  # finished" keeps the phase thread alive beyond the phase's deadline - the phase keeps its own result
+  orig_finished = phase_executor.PhaseExecutorThread._thread_finished
+
+  def lingering_finished(self):
+    d = LINGER.get(getattr(self._phase_desc, 'name', None))
+    if d:
+      time.sleep(d)
+    return orig_finished(self)
+  phase_executor.PhaseExecutorThread._thread_finished = lingering_finished
 
 
 class Failure(Exception):
@@ -42,6 +54,7 @@ class Ctx(object):
     self.body_calls = {}
     self.runif_calls = {}
     self.inst = []
+    self.diag_log = []     # every diagnosis the scripted diagnosers produced, in order: (result id, is_failure, is_internal)
     self.lock = threading.Lock()
     self.times = {}
     self.record_times = False
@@ -160,6 +173,9 @@ def build_phase(node, ctx, htf, diag_enum, diagnoses_lib, plugs=None):
       kw[b] = True
   if any(inv['raw'] == 'timeout' for inv in (node.get('beh') or [])):
     kw['timeout_s'] = TIMEOUT_S
+  if node.get('linger'):
+    kw['timeout_s'] = TIMEOUT_S
+    LINGER['p%d' % pid] = TIMEOUT_S * 1.6
   if node.get('timeout_s') is not None:
     kw['timeout_s'] = node['timeout_s']
   if node.get('runif') is not None:
@@ -195,7 +211,16 @@ def build_phase(node, ctx, htf, diag_enum, diagnoses_lib, plugs=None):
       d = ds[j] if j < len(ds) else []
       if d == 'raise':
         raise RuntimeError('diagnoser failure')
-      out = [diagnoses_lib.Diagnosis(diag_enum['R%d' % rid], 'diagnosis %d' % rid, is_failure=bool(f)) for rid, f in d]
+      out = []
+      for e in d:
+        rid, f = e[0], e[1]
+        # an internal diagnosis (never a failure) drives branches and checkpoints like any other, but is not saved to
+        # the test record
+        internal = len(e) > 2 and bool(e[2]) and not f and not phase_diag_always_fail(pid, j)
+        out.append(diagnoses_lib.Diagnosis(diag_enum['R%d' % rid], 'diagnosis %d' % rid, is_failure=bool(f),
+                                           is_internal=internal))
+        with ctx.lock:
+          ctx.diag_log.append((rid, bool(f) or phase_diag_always_fail(pid, j), internal))
       return out[0] if len(out) == 1 and (pid + j) % 2 else out
     run.__name__ = 'dg%d_%d' % (pid, j)
     diagnosers.append(diagnoses_lib.PhaseDiagnoser(diag_enum, name='dg%d_%d' % (pid, j),
@@ -340,7 +365,21 @@ def canon_record(rec, ctx, start_name=None):
     toks.append('B%s:%d' % (b.name[1:], 1 if b.branch_taken else 0))
   for c in rec.checkpoints:
     toks.append('c%s:%s:%s' % (c.name[1:], c.subtest_name[1:] if c.subtest_name else '-', _res_kind(c.result)))
-  for d in rec.diagnoses:
+  # internal diagnoses are produced but not saved to the record: they are put back in their place (production order) so
+  # that the model, which knows no internal flag, sees every diagnosis; one that IS saved although internal, or a
+  # missing ordinary one, breaks the alignment and shows as a difference
+  recd = list(rec.diagnoses)
+  internal_left = [e for e in getattr(ctx, 'diag_log', []) if e[2]]
+  if internal_left:
+    ri = 0
+    for (rid, f, internal) in ctx.diag_log:
+      if internal:
+        toks.append('D%d:0' % rid)
+      elif ri < len(recd) and int(recd[ri].result.name[1:]) == rid:
+        toks.append('D%s:%d' % (recd[ri].result.name[1:], 1 if recd[ri].is_failure else 0))
+        ri += 1
+    recd = recd[ri:]
+  for d in recd:
     toks.append('D%s:%d' % (d.result.name[1:], 1 if d.is_failure else 0))
   toks += list(ctx.events)
   toks += list(ctx.inst)
@@ -357,6 +396,7 @@ def make_env():
 
 def build_test(case, callbacks=None):
   """Builds the real htf.Test of a case. Returns dict(test, ctx, env, recs, cb_records, start)."""
+  LINGER.clear()
   setup()
   env = make_env()
   htf, diagnoses_lib = env['htf'], env['diagnoses_lib']
@@ -387,7 +427,10 @@ def build_test(case, callbacks=None):
         ctx.events.append('eT%d' % j)
       if d == 'raise':
         raise RuntimeError('test diagnoser failure')
-      return [diagnoses_lib.Diagnosis(env['diag_enum']['R%d' % rid], 'test diagnosis', is_failure=bool(f)) for rid, f in d]
+      with ctx.lock:
+        for e in d:
+          ctx.diag_log.append((e[0], bool(e[1]) or test_diag_always_fail(j), False))
+      return [diagnoses_lib.Diagnosis(env['diag_enum']['R%d' % e[0]], 'test diagnosis', is_failure=bool(e[1])) for e in d]
     run.__name__ = 'tdg%d' % j
     tdiags.append(diagnoses_lib.TestDiagnoser(env['diag_enum'], name='tdg%d' % j,
                                               always_fail=test_diag_always_fail(j))(run))
@@ -460,7 +503,7 @@ def test_diag_always_fail(j):
 def enc_diagrun(d, always_fail=False):
   if d == 'raise':
     return 'X'
-  return 'R %d %s' % (len(d), ' '.join('%d %s' % (rid, _b(f or always_fail)) for rid, f in d))
+  return 'R %d %s' % (len(d), ' '.join('%d %s' % (e[0], _b(e[1] or always_fail)) for e in d))
 
 
 def enc_inv(inv, pid=None):
@@ -583,7 +626,7 @@ class Gen(object):
     r = self.rng
     if r.random() < 0.12:
       return 'raise'
-    return [[r.randrange(4), r.random() < 0.35] for _ in range(r.choice([0, 1, 1, 2]))]
+    return [[r.randrange(4), r.random() < 0.35, r.random() < 0.25] for _ in range(r.choice([0, 1, 1, 2]))]
 
   def inv(self, in_sub, nmeas, kinds, ndiag):
     r = self.rng
@@ -741,6 +784,7 @@ def run_history(case):
       conf.load(plug_teardown_timeout_s=0.05, _override=True)
     for run in case['runs']:
       ctx.events, ctx.body_calls, ctx.runif_calls, ctx.inst = [], {}, {}, []
+      ctx.diag_log = []
       ctx.overlap, ctx.want_overlap = None, bool(run.get('overlap'))
       del recs[:], cb_recs[:], running_none[:]
       h0 = len(htf_logger.handlers)
@@ -751,6 +795,9 @@ def run_history(case):
           box['ret'] = test.execute()
         except BaseException as e:  # pylint: disable=broad-except
           box['exc'] = e
+          if os.environ.get('VERIF_DEBUG'):
+            import traceback
+            open('/tmp/verif_debug.log', 'a').write(traceback.format_exc() + '\n')
       runner = threading.Thread(target=_go, daemon=True)
       runner.start()
       runner.join(HANG_S)
